@@ -2,11 +2,12 @@
 # Runs every registered quick (or $1=thorough) check on /repo as it is; prints one summary line per property.
 tier=${1:-quick}
 cd "$(dirname "$0")"
+logdir=${ZVERIF_LOGDIR:-/tmp}
 rc=0
 for i in 01 02 03 04 05 06 07 08 09 10 11 12 13 14 15 16 17 18 19 20; do
-    ./check C$i --tier $tier > /tmp/zverif-C$i.log 2>&1
+    ./check C$i --tier $tier > $logdir/zverif-C$i.log 2>&1
     e=$?
-    echo "C$i exit=$e $(grep -E '^OK|^VIOLATION|^HARNESS-ERROR|^KNOWN' /tmp/zverif-C$i.log | head -2 | tr '\n' ' ')"
+    echo "C$i exit=$e $(grep -E '^OK|^VIOLATION|^HARNESS-ERROR|^KNOWN' $logdir/zverif-C$i.log | head -2 | tr '\n' ' ')"
     [ $e -ne 0 ] && rc=1
 done
 exit $rc
